@@ -1,1 +1,67 @@
-From QS Require Import theories.Backtest.
+(** C07 — Backtest results up to any date do not depend on later market data. *)
+From Coq Require Import ZArith QArith String List Permutation Sorted.
+From QS Require Import theories.Num theories.Position theories.Exchange theories.Data theories.Clock theories.Backtest
+  proofs.DataProofs proofs.BacktestProofs proofs.CausalData.
+Import ListNotations.
+Open Scope Z_scope.
+
+(** For EVERY configuration (any universe, alpha model, rebalance kind, sizer, fee model, burn-in)
+    and any two markets that agree at all instants t <= T: session construction succeeds or fails
+    identically, and everything the run stamps on or before T - every equity point, fill, recorded
+    allocation, and the error that aborts the run if there is one - is identical (Leibniz). *)
+Theorem results_up_to_T_ignore_later_data :
+  forall cfg m1 m2 T,
+    (forall t, t <= T -> m1 t = m2 t) ->
+    match run cfg m1, run cfg m2 with
+    | Ok tr1, Ok tr2 => upto T tr1 = upto T tr2
+    | Err e1, Err e2 => e1 = e2
+    | _, _ => False
+    end.
+Proof. exact run_causal. Qed.
+Print Assumptions results_up_to_T_ignore_later_data.
+
+(** the loop-level statement, from any session state *)
+Theorem event_loop_is_causal :
+  forall cfg sched m1 m2 T,
+    (forall t, t <= T -> m1 t = m2 t) ->
+    forall evs st, StronglySorted ev_lt evs ->
+    upto T (run_from cfg sched m1 st evs) = upto T (run_from cfg sched m2 st evs).
+Proof. exact run_from_causal. Qed.
+Print Assumptions event_loop_is_causal.
+
+(** composed with C06: when the market is a set of daily-bar files served by the data source, it
+    suffices that the files agree on the rows dated on or before day T - whatever happens to the
+    later rows (arbitrary other values, removed altogether, new ones added) *)
+Theorem results_up_to_day_T_ignore_later_rows :
+  forall cfg adjust files1 files2 T,
+    Forall2 (fun f1 f2 => fst f1 = fst f2 /\ same_until T (snd f1) (snd f2)) files1 files2 ->
+    match run cfg (market_of adjust files1), run cfg (market_of adjust files2) with
+    | Ok tr1, Ok tr2 => upto (T * 86400 + 86399) tr1 = upto (T * 86400 + 86399) tr2
+    | Err e1, Err e2 => e1 = e2
+    | _, _ => False
+    end.
+Proof. exact run_causal_csv. Qed.
+Print Assumptions results_up_to_day_T_ignore_later_rows.
+
+(** every output carries the time of the event that produced it *)
+Theorem outputs_are_stamped_with_event_times :
+  forall cfg sched market evs st o,
+    In o (run_from cfg sched market st evs) -> In (fst o) (map fst evs).
+Proof. exact run_from_stamps. Qed.
+Print Assumptions outputs_are_stamped_with_event_times.
+
+(** Non-vacuity: a three-day daily-rebalanced session; the two markets differ on the last day only *)
+Definition cfg7 : config :=
+  mkCfg (18267 * 86400) (18269 * 86400 + 86340) (PCM.StaticU ["A"%string]) (AFixed [("A"%string, 1%Q)])
+        (10000 # 1)%Q RDaily true 0%Q Fees.ZeroFee None None.
+Definition mk7 (last : Q) (t : Z) : snapshot :=
+  if t <? 18269 * 86400 then [("A"%string, (100 # 1)%Q)] else [("A"%string, last)].
+Example causal_nonvacuous :
+  exists tr1 tr2, run cfg7 (mk7 (90 # 1)%Q) = Ok tr1 /\ run cfg7 (mk7 (150 # 1)%Q) = Ok tr2 /\
+    tr1 <> tr2 /\ upto (18268 * 86400 + 86399) tr1 = upto (18268 * 86400 + 86399) tr2 /\
+    length (upto (18268 * 86400 + 86399) tr1) = 5%nat.
+Proof.
+  eexists. eexists. split; [vm_compute; reflexivity|]. split; [vm_compute; reflexivity|].
+  split; [discriminate|]. split; reflexivity.
+Qed.
+Print Assumptions causal_nonvacuous.
